@@ -786,8 +786,9 @@ class Cache(object):
             return False
         db_tx.txid = txid
         t = self._parse_db_transaction(db_tx)
-        if t.block_height:
-            t.confirmations = (self.blockcount() - t.block_height) + 1
+        blockcount = self.blockcount(never_expires=True)
+        if t.block_height and blockcount:
+            t.confirmations = (blockcount - t.block_height) + 1
         return t
 
     def getaddress(self, address):
@@ -845,8 +846,9 @@ class Cache(object):
             for db_tx in db_txs:
                 t = self._parse_db_transaction(db_tx)
                 if t:
-                    if t.block_height:
-                        t.confirmations = (self.blockcount() - t.block_height) + 1
+                    blockcount = self.blockcount(never_expires=True)
+                    if t.block_height and blockcount:
+                        t.confirmations = (blockcount - t.block_height) + 1
                     txs.append(t)
                     if len(txs) >= limit:
                         break
